@@ -24,6 +24,18 @@ theorem tables_pinned :
     quoteTbl = [(['"'], ['"','"'])] ∧ unquoteTbl = [(['"','"'], ['"'])] :=
   ⟨escTbl_eq, unescTbl_eq, quoteTbl_eq, unquoteTbl_eq⟩
 
+/-- every place that writes a data-validation formula escapes it, and every place that
+reads one unescapes it: the call sites of `formulaEscaper.Replace` /
+`formulaUnescaper.Replace` are the ones the round-trip argument relies on
+(SetDropList, SetRange, SetSqrefDropList and the row/column adjuster write;
+unescapeDataValidationFormula and the adjuster read). A dropped or added call
+changes this fact. -/
+theorem escaper_call_sites_pinned :
+    Facts.C18.formulaEscaperCallers =
+      [("SetDropList", 2), ("SetRange", 1), ("SetSqrefDropList", 1), ("adjustDataValidations", 2)] ∧
+    Facts.C18.formulaUnescaperCallers =
+      [("adjustDataValidations", 2), ("unescapeDataValidationFormula", 2)] := by decide
+
 /-- `assignFieldValue` has a case for bool, int and float64 (string goes through the default) -/
 theorem assign_kinds_pinned :
     kindCase .bool = true ∧ kindCase .int = true ∧ kindCase .float = true := by decide
